@@ -1,6 +1,7 @@
 """C06 motion / configuration helpers of both layers emit exactly the documented EBB command text."""
 from common import cz, cb, clist, ctext, copt
 from props import ebb3sim as S
+import inspect
 from plotink import ebb_motion, ebb3_motion, ebb3_serial
 
 ID = "C06"
@@ -10,7 +11,7 @@ COQ_RUN = "run06"
 COQ_CASE_TYPE = "case06"
 SHARD = 150
 RULE = ("every helper of ebb_motion.py (function style) and ebb3_motion.py / EBB3.var_write (class style) called against an all-acknowledging fake port (acknowledging at once, after 1-3 timed-out reads, or after a blank line), "
-        "alone and (class style) after 1-3 earlier helper calls on the same object incl. disconnect/reattach and every ordered pair of single-motor requests, with arguments from {0, +-1, 750, 751, 1500, 2^31-1, -2^31, random}, optional arguments absent / zero / non-zero, motor resolutions -2..8, pauses "
+        "with positional and with keyword arguments, alone and (class style) after 1-3 earlier helper calls on the same object incl. disconnect/reattach and every ordered pair of single-motor requests, with arguments from {0, +-1, 750, 751, 1500, 2^31-1, -2^31, random}, optional arguments absent / zero / non-zero, motor resolutions -2..8, pauses "
         "-5..4000 incl. the chunk boundaries; the bytes written (every line must end in exactly one CR) are compared with the model and with the documented text; "
         "non-trivial = a helper with at least one optional or zero-valued argument, or a pause of more than one chunk")
 TRUSTED = ["the documented command table Spec/EbbDoc.v, transcribed from the docstrings of the repository", "fake port acknowledging every command"]
@@ -78,6 +79,14 @@ def generate(rng, tier):
             seen.add(k); cases.append({"h": c["h"], "noport": True, "family": "no-port/" + k})
     # the text written must not depend on how promptly the board acknowledges: a third of the cases run against a port whose reads
     # time out 1-3 times (or deliver a blank line) before each acknowledgement
+    # the calling convention must not matter: one twin per kind of helper, and a fifth of all cases, pass every argument by keyword
+    seen = set()
+    for c in list(cases):
+        k = c["h"][0]
+        if k not in seen and not c.get("noport") and "pre" not in c:
+            seen.add(k); cases.append(dict(c, kw=True, family="keyword/" + k))
+    for c in cases:
+        if not c.get("noport") and "kw" not in c and rng.random() < 0.2: c["kw"] = True; c["family"] += "/keyword"
     for c in cases:
         if c.get("noport"): continue
         r = rng.random()
@@ -114,25 +123,26 @@ def run_impl(c):
     port = AckPort(legacy, c.get("delay", 0), c.get("blank", False), "%d.%d.%d" % tuple(a[:3]) if k == "L_ServoV" else None, "%d,%d" % (a[2], a[3]) if k == "E_MotorsOnQ" else "0,0")
     if legacy:
         M = ebb_motion
-        if k == "L_XY": M.doXYMove(port, a[0], a[1], a[2], False)
-        elif k == "L_AB": M.doABMove(port, a[0], a[1], a[2], False)
-        elif k == "L_LM": M.doLowLevelMove(port, a[0], a[1], a[2], a[3], a[4], a[5], a[6], False)
-        elif k == "L_Abs": M.doAbsMove(port, a[0], a[1], a[2], False)
-        elif k == "L_Pause": M.doTimedPause(port, a[0], False)
-        elif k == "L_MotorsOff": M.sendDisableMotors(port, False)
-        elif k == "L_Motors": M.sendEnableMotors(port, a[0], False)
-        elif k == "L_Pen": (M.sendPenUp if a[0] else M.sendPenDown)(port, a[1], a[2], False)
-        elif k == "L_BConfig": M.PBOutConfig(port, a[0], a[1], False)
-        elif k == "L_BSet": M.PBOutValue(port, a[0], a[1], False)
-        elif k == "L_Toggle": M.TogglePen(port, False)
-        elif k == "L_PenPos": (M.setPenUpPos if a[0] else M.setPenDownPos)(port, a[1], False)
-        elif k == "L_PenRate": (M.setPenUpRate if a[0] else M.setPenDownRate)(port, a[1], False)
-        elif k == "L_LayerVar": M.setEBBLV(port, a[0], False)
-        elif k == "L_ServoV": M.servo_timeout(port, a[3], a[4], False)       # through the real version gate
+        kw = c.get("kw", False)
+        if k == "L_XY": _call(M.doXYMove, (port, a[0], a[1], a[2], False), kw)
+        elif k == "L_AB": _call(M.doABMove, (port, a[0], a[1], a[2], False), kw)
+        elif k == "L_LM": _call(M.doLowLevelMove, (port, a[0], a[1], a[2], a[3], a[4], a[5], a[6], False), kw)
+        elif k == "L_Abs": _call(M.doAbsMove, (port, a[0], a[1], a[2], False), kw)
+        elif k == "L_Pause": _call(M.doTimedPause, (port, a[0], False), kw)
+        elif k == "L_MotorsOff": _call(M.sendDisableMotors, (port, False), kw)
+        elif k == "L_Motors": _call(M.sendEnableMotors, (port, a[0], False), kw)
+        elif k == "L_Pen": _call(M.sendPenUp if a[0] else M.sendPenDown, (port, a[1], a[2], False), kw)
+        elif k == "L_BConfig": _call(M.PBOutConfig, (port, a[0], a[1], False), kw)
+        elif k == "L_BSet": _call(M.PBOutValue, (port, a[0], a[1], False), kw)
+        elif k == "L_Toggle": _call(M.TogglePen, (port, False), kw)
+        elif k == "L_PenPos": _call(M.setPenUpPos if a[0] else M.setPenDownPos, (port, a[1], False), kw)
+        elif k == "L_PenRate": _call(M.setPenUpRate if a[0] else M.setPenDownRate, (port, a[1], False), kw)
+        elif k == "L_LayerVar": _call(M.setEBBLV, (port, a[0], False), kw)
+        elif k == "L_ServoV": _call(M.servo_timeout, (port, a[3], a[4], False), kw)       # through the real version gate
         elif k == "L_Servo":
             # the version gate (C15) is not the subject here: let it pass
             orig = M.ebb_serial.min_version; M.ebb_serial.min_version = lambda p, v: True
-            try: M.servo_timeout(port, a[0], a[1], False)
+            try: _call(M.servo_timeout, (port, a[0], a[1], False), kw)
             finally: M.ebb_serial.min_version = orig
     else:
         o = ebb3_motion.EBBMotionWrap(); o.port = port; o.version = "3.0.3"; o.version_parsed = ebb3_serial.parse("3.0.3")
@@ -143,7 +153,7 @@ def run_impl(c):
                 _e_call(o, ph[0], ph[1:])
         if o.err is not None: return {"raise": "recorded error: %s" % o.err}
         del port.writes[:]
-        _e_call(o, k, a)
+        _e_call(o, k, a, c.get("kw", False))
         if o.err is not None: return {"raise": "recorded error: %s" % o.err}
     out = []
     for d in port.writes:
@@ -173,20 +183,26 @@ def _run_noport(k, a, legacy):
     _e_call(o, k, a)
     return {"writes": []}
 
-def _e_call(o, k, a):
+def _call(f, args, kw=False):
+    """the same request with positional arguments, or with every argument passed by its documented keyword"""
+    if not kw: return f(*args)
+    names = [n for n in inspect.signature(f).parameters][:len(args)]
+    return f(**dict(zip(names, args)))
+
+def _e_call(o, k, a, kw=False):
     if True:
-        if k == "E_XY": o.xy_move(a[0], a[1], a[2])
-        elif k == "E_Abs": o.abs_move(a[0], a[1], a[2])
-        elif k == "E_Pause": o.timed_pause(a[0])
+        if k == "E_XY": _call(o.xy_move, (a[0], a[1], a[2]), kw)
+        elif k == "E_Abs": _call(o.abs_move, (a[0], a[1], a[2]), kw)
+        elif k == "E_Pause": _call(o.timed_pause, (a[0],), kw)
         elif k == "E_MotorsOff": o.motors_disable()
-        elif k in ("E_MotorsOn", "E_MotorsOnQ"): o.motors_enable(a[0], a[1])
-        elif k == "E_Pen": (o.pen_raise if a[0] else o.pen_lower)(a[1], a[2])
-        elif k == "E_BConfig": o.dio_b_config(a[0], a[1], a[2])
-        elif k == "E_BSet": o.dio_b_set(a[0], a[1])
-        elif k == "E_PenPos": (o.pen_pos_up if a[0] else o.pen_pos_down)(a[1])
-        elif k == "E_PenRate": (o.pen_rate_up if a[0] else o.pen_rate_down)(a[1])
-        elif k == "E_Servo": o.servo_timeout(a[0], a[1])
-        elif k == "E_Var": o.var_write(a[0], a[1])
+        elif k in ("E_MotorsOn", "E_MotorsOnQ"): _call(o.motors_enable, (a[0], a[1]), kw)
+        elif k == "E_Pen": _call(o.pen_raise if a[0] else o.pen_lower, (a[1], a[2]), kw)
+        elif k == "E_BConfig": _call(o.dio_b_config, (a[0], a[1], a[2]), kw)
+        elif k == "E_BSet": _call(o.dio_b_set, (a[0], a[1]), kw)
+        elif k == "E_PenPos": _call(o.pen_pos_up if a[0] else o.pen_pos_down, (a[1],), kw)
+        elif k == "E_PenRate": _call(o.pen_rate_up if a[0] else o.pen_rate_down, (a[1],), kw)
+        elif k == "E_Servo": _call(o.servo_timeout, (a[0], a[1]), kw)
+        elif k == "E_Var": _call(o.var_write, (a[0], a[1]), kw)
         elif k == "E_ClearSteps": o.clear_steps()
         elif k == "E_ClearAcc": o.clear_accumulators()
 
@@ -211,7 +227,7 @@ def nontrivial(c, r):
     return any(x is None or x == 0 for x in h[1:]) or (h[0].endswith("Pause") and h[1] > 750)
 
 def explain(c, r):
-    return {"port": {"empty_reads_before_each_ack": c.get("delay", 0), "blank_line_before_each_ack": c.get("blank", False)}, "earlier_calls_on_the_same_object": [[str(x) for x in p] for p in c.get("pre", [])], "helper": [str(x) for x in c["h"]], "written": r.get("writes"), "raise": r.get("raise")}
+    return {"arguments_by_keyword": c.get("kw", False), "port": {"empty_reads_before_each_ack": c.get("delay", 0), "blank_line_before_each_ack": c.get("blank", False)}, "earlier_calls_on_the_same_object": [[str(x) for x in p] for p in c.get("pre", [])], "helper": [str(x) for x in c["h"]], "written": r.get("writes"), "raise": r.get("raise")}
 
 def _zero_dropped(c, r):
     """finding class D5: an optional argument supplied as 0 is dropped by a truthiness test"""
